@@ -45,12 +45,13 @@ def load_catalogue(prop):
 
 def apply_edits(root, m):
     edits = m.get("edits") or [(m["file"], m["old"], m["new"])]
-    for file, old, new in edits:
+    for ed in edits:
+        file, old, new = ed[:3]
         p = os.path.join(root, file)
         with open(p) as fh:
             text = fh.read()
         cnt = text.count(old)
-        want = m.get("count", 1)
+        want = ed[3] if len(ed) > 3 else m.get("count", 1)
         if cnt != want:
             return "pattern occurs %d times in %s (expected %d)" % (cnt, file, want)
         text = text.replace(old, new)
